@@ -16,9 +16,11 @@ package server
 import (
 	"context"
 	"fmt"
+	"net"
 	"os"
 	"path/filepath"
 	"runtime"
+	"strconv"
 	"strings"
 	"sync"
 	"testing"
@@ -53,7 +55,7 @@ const (
 	c20UpdatePeer
 	c20Vrf
 	c20Watch
-	c20Mrt // EnableMrt / DisableMrt of one of two dump files (updates or table dump); what is enabled at the end stays enabled at Stop
+	c20Mrt  // EnableMrt / DisableMrt of one of two dump files (updates or table dump); what is enabled at the end stays enabled at Stop
 	c20Misc // the rest of the management API: shutdown / hard reset, table and global getters, fine-grained policy objects, peer groups and dynamic neighbours, RPKI listings, log level
 	c20MgmtOps
 )
@@ -548,6 +550,75 @@ func runC20(t *testing.T) func(c c20Case, st *verifkit.Stats) *verifkit.Failure 
 
 func TestVerifC20(t *testing.T) {
 	verifkit.Run(t, "C20", drawC20, runC20(t))
+}
+
+// Probe (real time, real loopback TCP): a burst of incoming connections arrives while the management loop is busy, so
+// that accepted connections pile up between the listener and the management loop (more than the hand-over queue holds),
+// and the next management operation is StopBgp: it must return, and so must the call after it.
+func init() {
+	verifkit.RegisterProbe("C20", "stop-with-pending-accepted-connections", func(st *verifkit.Stats) *verifkit.Failure {
+		for round := 0; round < 2; round++ {
+			tmp, err := net.Listen("tcp", "127.0.0.1:0")
+			if err != nil {
+				return nil // no loopback in this environment: nothing to probe
+			}
+			port := tmp.Addr().(*net.TCPAddr).Port
+			_ = tmp.Close()
+			s := NewBgpServer()
+			go s.Serve()
+			ctx := context.Background()
+			if err := s.StartBgp(ctx, &api.StartBgpRequest{Global: &api.Global{Asn: 65000, RouterId: "192.0.2.254", ListenPort: int32(port), ListenAddresses: []string{"127.0.0.1"}}}); err != nil {
+				s.Stop()
+				return nil // the port was taken in between: not what is probed
+			}
+			entered, release := make(chan struct{}), make(chan struct{})
+			opDone := make(chan error, 1)
+			go func() {
+				opDone <- s.mgmtOperation(func() error { close(entered); <-release; return nil }, true)
+			}()
+			<-entered
+			var conns []net.Conn
+			for i := 0; i < 80; i++ {
+				c, err := net.DialTimeout("tcp", net.JoinHostPort("127.0.0.1", strconv.Itoa(port)), time.Second)
+				if err == nil {
+					conns = append(conns, c)
+				}
+			}
+			time.Sleep(200 * time.Millisecond) // the accept loop fills the hand-over queue and blocks on it
+			stopDone := make(chan error, 1)
+			go func() { stopDone <- s.StopBgp(ctx, &api.StopBgpRequest{}) }()
+			time.Sleep(50 * time.Millisecond)
+			close(release)
+			<-opDone
+			closeAll := func() {
+				for _, c := range conns {
+					_ = c.Close()
+				}
+			}
+			select {
+			case <-stopDone:
+			case <-time.After(10 * time.Second):
+				closeAll()
+				return verifkit.Failf("stop-hangs", "round %d: StopBgp does not return within 10 s with %d accepted connections waiting for the management loop", round, len(conns))
+			}
+			listDone := make(chan struct{})
+			go func() {
+				_ = s.ListPeer(ctx, &api.ListPeerRequest{}, func(*api.Peer) {})
+				close(listDone)
+			}()
+			select {
+			case <-listDone:
+			case <-time.After(10 * time.Second):
+				closeAll()
+				return verifkit.Failf("api-hangs", "round %d: ListPeer after StopBgp does not return within 10 s", round)
+			}
+			closeAll()
+			s.Stop()
+			st.SubEval(1)
+		}
+		st.Nontrivial()
+		return nil
+	})
 }
 
 // c20StopLeavesBmp (real time, no bubble: the BMP client dials a real TCP address): a BMP
